@@ -703,3 +703,28 @@ PROPS["C05"] = dict(
           "present, code_exec is the emulator/backup, orc_executor_run works (valid programs); orc_program_free works."),
     assumptions=["ORC_CODE unset"],
 )
+
+PROPS["C06"] = dict(
+    variant="plain",
+    sources=ENGINE + ["props/c06_fallback.c"],
+    ldflags=["-Wl,--wrap=mmap64", "-Wl,--wrap=mkstemp64", "-Wl,--wrap=ftruncate64"],
+    set=["scratch={scratch}"],
+    level="exploration",
+    technique="enumerated fault injection (link-time wrapping of mkstemp/ftruncate/mmap, failing the calls a plan names) over configurations, with an emulation/differential oracle and a backup-call counter; each case initialises the library in its own process",
+    level_text=("every single failing call position 0..23, every pair of positions below 14, every call of one kind, and every call from position "
+                "k on, among the mkstemp/ftruncate/mmap calls made by orc_init and by compilation, x ORC_CODE in {unset, emulate, backup, "
+                "debug, backup+emulate} x backup function yes/no x attached/code-only executor x three programs x three environment "
+                "settings: 24300 configurations, enumerated completely in both tiers"),
+    level_note=("trusted base: the --wrap shim in props/c06_fallback.c (failures are injected only while the harness arms it, i.e. inside "
+                "orc_init and orc_program_compile_for_target), orc_executor_emulate on a separately built program as the reference, plus a C "
+                "loop for the addw program; positions beyond the calls actually made are no-ops (counted as plan without injection)"),
+    stages=[
+        dict(name="enum-fault-plans", mode="enum", quick=dict(budget=240), thorough=dict(budget=1200)),
+    ],
+    rule=("a case is (failure plan, ORC_CODE, backup function, executor kind, program, environment). Non-trivial: every case (each runs "
+          "init, compile, two executions and 45 further compile/free rounds); the classes report how many had a failure injected during init "
+          "or during compilation and how many ended on native code or on a fallback. Oracle: results equal emulation (and s1+s2 for addw); "
+          "backup function called 0 times when native code ran, at most once per run otherwise, exactly once per run under ORC_CODE=backup; no fatal "
+          "result for the valid programs; open descriptors do not grow between round 5 and round 45."),
+    assumptions=["Linux mmap code-memory back end (HAVE_CODEMEM_MMAP)"],
+)
